@@ -33,6 +33,10 @@ enum Behav {
 	B_CONF_ONLY,          // configuration push alone
 	B_WITH_CONF,          // honest reply with a piggy-backed configuration
 	B_NO_CAL,             // aggr: status 0 but no calendar chain (still a valid response object)
+	B_INDEX_GAP,          // aggr: a lower chain's index is two or more elements longer than the next chain's
+	B_INDEX_SHORT,        // aggr: a lower chain's index is not longer than the next chain's
+	B_INDEX_PREFIX,       // aggr: a lower chain's index does not start with the next chain's index
+	B_INDEX_SHAPE,        // aggr: the last index element of a chain does not describe its link shape
 	B__COUNT
 };
 const char *behav_name(int b);
@@ -103,6 +107,9 @@ struct World {
 	// optional: signs published data for calendar authentication records (set up by the PKI fixture)
 	std::function<bool(const std::string &signed_bytes, std::string &sig, std::string &cert_id)> pki_sign;
 	bool with_auth_record = false;
+	// when non-zero, version-2 response PDUs are padded with an unknown non-critical, forward-flagged element so that the
+	// whole PDU has exactly this many bytes (the largest legal PDU is 65535 + 4 bytes)
+	size_t pad_total = 0;
 
 	std::string aggr_reply(const ReqInfo &rq, const EndpointCfg &ep, int behav, uint64_t subseed, ReplyMeta &meta);
 	std::string ext_reply(const ReqInfo &rq, const EndpointCfg &ep, int behav, uint64_t subseed, ReplyMeta &meta);
